@@ -1554,7 +1554,7 @@ impl Zeroconf {
             self.probing_handler();
 
             // check IP changes if next_ip_check is reached.
-            if now >= next_ip_check && next_ip_check > 0 {
+            if self.ip_check_interval > 0 && now >= next_ip_check {
                 next_ip_check = now + self.ip_check_interval;
                 self.add_timer(next_ip_check);
 
